@@ -181,17 +181,21 @@ def run_bombs(ctx, cases, workers):
     exe = ctx.build_harness()
 
     def run(case):
+        prefix = ""
+        if len(case) == 6:
+            prefix = case[5]
+            case = case[:5]
         shape, n, closed, lim, entry = case
-        cmd = [exe, "bomb", "-shape", shape, "-n", str(n), "-closed=%s" % ("true" if closed else "false"), "-limit", str(lim), "-entry", entry]
+        cmd = [exe, "bomb", "-prefix", prefix, "-shape", shape, "-n", str(n), "-closed=%s" % ("true" if closed else "false"), "-limit", str(lim), "-entry", entry]
         try:
             p = subprocess.run(cmd, capture_output=True, text=True, timeout=300)
         except subprocess.TimeoutExpired:
-            return dict(ev="bomb", shape=shape, n=n, closed=closed, limit=lim, entry=entry, returned=False, maxlvl=0, cls="", parses=0, mime="", wall_ms=300000, died="timeout")
+            return dict(ev="bomb", prefix=prefix, plen=0, shape=shape, n=n, closed=closed, limit=lim, entry=entry, returned=False, maxlvl=0, cls="", parses=0, mime="", wall_ms=300000, died="timeout")
         if p.returncode == 0 and p.stdout.strip():
             return json.loads(p.stdout.strip().splitlines()[-1])
         if p.returncode == 2 and "stack" not in p.stderr and "overflow" not in p.stderr and "signal" not in p.stderr:
             raise core.Infra("bomb driver failed: %s %s" % (cmd, p.stderr[-500:]))
-        return dict(ev="bomb", shape=shape, n=n, closed=closed, limit=lim, entry=entry, returned=False, maxlvl=0, cls="", parses=0, mime="", wall_ms=0, died=p.stderr[-300:])
+        return dict(ev="bomb", prefix=prefix, plen=0, shape=shape, n=n, closed=closed, limit=lim, entry=entry, returned=False, maxlvl=0, cls="", parses=0, mime="", wall_ms=0, died=p.stderr[-300:])
 
     with concurrent.futures.ThreadPoolExecutor(max_workers=workers) as ex:
         return list(ex.map(run, cases))
@@ -236,6 +240,11 @@ def c16(ctx):
                         cases.append((shape, nn, closed, lim, entry))
         for entry in ("geo", "har", "gltf", "ndjson"):
             cases.append((shape, 1000000, True, 0, entry))
+        # a completed value / a string with an escaped quote / a completed member ahead of the nesting
+        for prefix in ("lead0", "leadq", "leadobj"):
+            for n in (cap + 2, 1000000):
+                cases.append((shape, n, False, 0, "Detect", prefix))
+                cases.append((shape, n, False, 0, "ndjson", prefix))
     if not quick:
         cases.append(("arr", 1000000, True, 4294967295, "DetectReader"))  # 4 GiB buffer, run with the others
     recs = run_bombs(ctx, cases, 4 if not quick else core.NCPU)
